@@ -400,7 +400,7 @@ class Interp:
             return self.class_attr(o.cls, name, o)
         if isinstance(o, (PList, PDict, str, DictView)):
             return BuiltinMethod(o, name)
-        if type(o).__name__ == "Opaque":
+        if type(o).__name__ in ("Opaque", "MatchObj"):
             return BuiltinMethod(o, name)
         if isinstance(o, type) and not issubclass(o, enum.Enum):
             hk = self.w.class_heap_attrs.get((o, name))
